@@ -46,6 +46,8 @@ inductive Expr where
   /-- an f-string: literal pieces (`.strE`) and `{e}` pieces (`.fmt e`, no conversion or format spec) -/
   | fstr (parts : List Expr)
   | fmt (e : Expr)
+  /-- `t if c else e` -/
+  | ifE (c t e : Expr)
   /-- anything else (f-strings, lambdas, comprehensions …), kept as canonical source text -/
   | other (src : String)
   deriving Repr, Inhabited
@@ -158,6 +160,9 @@ def evalExpr (w : World m V) (loc : Locals V) : Expr → m V
   | .tupleE es => do let vs ← evalArgs w loc es; pure (w.tuple vs)
   | .fstr parts => do let vs ← evalArgs w loc parts; w.concat vs
   | .fmt e => do let v ← evalExpr w loc e; w.format v
+  | .ifE c t e => do
+    let cv ← evalExpr w loc c
+    if (← w.truthy cv) then evalExpr w loc t else evalExpr w loc e
   | .other s => w.other s
 
 /-- positional arguments, left to right; `*e` is expanded in place -/
